@@ -77,7 +77,7 @@ class Walker:
         self.cfg = gen.cfg_of(fx)
         self.rnd = rnd
         self.profile = dict(plans=True, utility=True, payload=self.cfg["payload"] != "void", hooks=2,
-                            overflow=False, cancel=True, react=True, serial=True, fills=False)
+                            overflow=True, cancel=True, react=True, serial=True, fills=True, quiet=0.15)
         self.stash = []          # saved buffers (lists of bytes), shared by all episodes of this walker
         self.profile.update(profile or {})
         fl = self.fl
@@ -231,6 +231,11 @@ class Walker:
             n += 1
             return r
 
+        quiet = (not keep) and rnd.random() < self.profile["quiet"]
+        serial_was = self.profile["serial"]
+        if quiet:
+            ex.send("quiet 1")
+            self.profile["serial"] = False
         pre = [] if manual else self.rets() + self.hooks("enter", [], 0, first_activation=True)
         if self.profile["fills"]:
             pre = ["fill %d" % rnd.choice([0, 255, 165, 1])] + pre
@@ -288,6 +293,9 @@ class Walker:
         if keep:
             return n
         rec = call([], "del")
+        if quiet:
+            ex.send("quiet 0")
+            self.profile["serial"] = serial_was
         return None if rec is None else n
 
     def episode_prefix(self, ex, steps):
